@@ -255,6 +255,9 @@ def jobs(tier):
                if any(u['cov'] for u in c)][::5]
         for c in cov:
             out.append(('hier', 'case_hier', dict(units=c, n_ids=2), {}))
+        for c in c02.extra_quick()[-4:]:
+            # several covariate-dependent sub-models with their own columns
+            out.append(('hier', 'case_hier', dict(units=c, n_ids=2), {}))
         for j, c in enumerate(comps[::7]):
             out.append(('hier', 'case_hier', dict(
                 units=c, n_ids=2, fix=j), {}))
